@@ -184,6 +184,8 @@ func (s *BaseSeeder) readerLoop() {
 				sessions = append(sessions, op.request.Session.ID)
 				s.peerSessions[op.peer.ID] = sessions
 				s.sessionsCounter++
+				// record the session even if no chunk gets requested by this request
+				s.sessions[sessionIDAndPeer{op.request.Session.ID, op.peer.ID}] = session
 			}
 
 			// sanity check (cannot change session parameters after it's created)
